@@ -4,6 +4,7 @@ package main
 // public API, records the trace stream as a canonical event log, answers task requests on demand.
 
 import (
+	"hash/fnv"
 	"reflect"
 	"context"
 	"fmt"
@@ -72,9 +73,22 @@ func xmlEsc(s string) string {
 	return r.Replace(s)
 }
 
+// taskKinds: the element kinds the engine runs as tasks; a Prog node of kind "task" is written as one of them, chosen by
+// its id (the same node is the same kind in every rendering of its program)
+var taskKinds = []string{"serviceTask", "userTask", "scriptTask", "manualTask", "businessRuleTask", "callActivity", "receiveTask", "sendTask", "task"}
+
+func taskKindOf(id string) string {
+	h := fnv.New32a()
+	h.Write([]byte(id))
+	return taskKinds[h.Sum32()%uint32(len(taskKinds))]
+}
+
 func (p *Prog) body(sb *strings.Builder) {
 	for _, n := range p.Nodes {
 		el := kindElem[n.Kind]
+		if n.Kind == "task" {
+			el = taskKindOf(n.ID)
+		}
 		fmt.Fprintf(sb, "<bpmn:%s id=\"%s\"", el, n.ID)
 		if n.Default != "" {
 			fmt.Fprintf(sb, " default=\"%s\"", n.Default)
@@ -147,7 +161,14 @@ func (p *Prog) XML(extra string) string {
 // compared with a fresh parse of the same text (running instances only read the definitions they share)
 var defsText sync.Map // *schema.Definitions -> string
 
+// Every other document the harness writes itself is parsed with another prefix for the BPMN namespace (the prefix is
+// the document's choice).
+var parseCount uint64
+
 func ParseDefs(xmlText string) (*schema.Definitions, error) {
+	if strings.HasPrefix(xmlText, defsHead) && atomic.AddUint64(&parseCount, 1)%2 == 0 {
+		xmlText = strings.NewReplacer("<bpmn:", "<bpmn2:", "</bpmn:", "</bpmn2:", "xmlns:bpmn=", "xmlns:bpmn2=", "\"bpmn:tFormalExpression\"", "\"bpmn2:tFormalExpression\"").Replace(xmlText)
+	}
 	d, err := schema.Parse([]byte(xmlText))
 	if err == nil {
 		defsText.Store(d, xmlText)
@@ -224,7 +245,16 @@ func (g *ctrGen) Snapshot() ([]byte, error) { return []byte(fmt.Sprint(atomic.Lo
 func (g *ctrGen) New() id.Id                { return ctrId{fmt.Sprintf("h%d", atomic.AddUint64(&g.n, 1))} }
 
 var sharedGen = &ctrGen{}
-var instCount uint64
+var instCount, engineCount uint64
+
+func executables(defs *schema.Definitions) (n int) {
+	for i := range *defs.Processes() {
+		if ex, ok := (*defs.Processes())[i].IsExecutable(); ok && ex {
+			n++
+		}
+	}
+	return
+}
 
 // SetXML renders several processes (executable flags given) plus a collaboration with message flows (source throw/… id, target id).
 func SetXML(procs []*Prog, executable []bool, flows [][2]string, extra string) string {
@@ -343,7 +373,15 @@ func StartInst(defs *schema.Definitions, o InstOpt) (*Inst, error) {
 		cancel()
 		return nil, fmt.Errorf("no executable process")
 	}
-	p, err := bpmn.NewProcess(procElem, defs, opts...)
+	// every third instance is made through an engine (which finds the executable process itself and supplies its own
+	// defaults), the others directly
+	var p *bpmn.Process
+	var err error
+	if n := atomic.AddUint64(&engineCount, 1); n%3 == 0 && executables(defs) == 1 {
+		p, err = bpmn.NewEngine().NewProcess(defs, opts...)
+	} else {
+		p, err = bpmn.NewProcess(procElem, defs, opts...)
+	}
 	if err != nil {
 		cancel()
 		return nil, err
